@@ -1,3 +1,6 @@
+//go:debug randseednop=0
+//go:debug asynctimerchan=0
+
 // Package worker is the entry point of the simulation worker process.  It is
 // a test binary because testing/synctest needs a *testing.T.
 package worker
